@@ -288,7 +288,11 @@ func genWireIn(r *Rng, tier string, stat func(string)) []string {
 			if r.Intn(2) == 0 {
 				ops = append(ops, "A")
 			} else {
-				ops = append(ops, fmt.Sprintf("a%d", r.Pick([]int{1, 7, 512, 4096, 32768, 100000})))
+				if r.Intn(5) == 0 {
+					ops = append(ops, fmt.Sprintf("z%d", r.Pick([]int{1, 7, 512, 4096})))
+				} else {
+					ops = append(ops, fmt.Sprintf("a%d", r.Pick([]int{1, 7, 512, 4096, 32768, 100000})))
+				}
 			}
 		}
 		end := r.PickS([]string{"eof", "eof", "fail"})
@@ -400,7 +404,7 @@ func runWireIn(kv map[string]string) string {
 				obs = append(obs, fmt.Sprintf("R:%d", typ))
 				rd = r
 			}
-		case op == "A" || op[0] == 'a':
+		case op == "A" || op[0] == 'a' || op[0] == 'z':
 			if rd == nil {
 				continue
 			}
@@ -412,6 +416,21 @@ func runWireIn(kv map[string]string) string {
 				n, _ := strconv.Atoi(op[1:])
 				buf := make([]byte, n)
 				for {
+					if op[0] == 'z' {
+						// a zero-length Read in the middle of a message is legal and must change nothing
+						k0, e0 := rd.Read(buf[:0])
+						if k0 != 0 {
+							rerr = fmt.Errorf("zero-length read returned %d bytes", k0)
+							break
+						}
+						if e0 == io.EOF {
+							break
+						}
+						if e0 != nil {
+							rerr = e0
+							break
+						}
+					}
 					k, e := rd.Read(buf)
 					data = append(data, buf[:k]...)
 					if e == io.EOF {
